@@ -408,6 +408,54 @@ func execStream(body json.RawMessage) *kernel.Result {
 		if b.Kind == "none" && (!sameParse(a, b) || !sameParse(b, c)) {
 			fail("C13.L-last-token", "tail:"+tail, "text %q parses as %s, with a trailing newline as %s, with a trailing space as %s", sc.Text, a, b, c)
 		}
+	case "R":
+		// the production client of the pausable parser: the REPL reader delivers the text line by line and
+		// loops on more-input; the expressions it hands out, concatenated, must be those of the whole text
+		text := sc.Text
+		if !strings.HasSuffix(text, "\n") {
+			text += "\n"
+		}
+		whole := parseWhole(text, true)
+		res.Execs++
+		if whole.Kind != "none" {
+			res.Probe("R-skipped-whole-not-clean")
+			return res
+		}
+		env := zy.New("std")
+		defer closeQuietly(env)
+		var got []string
+		n := 0
+		bad := ""
+		o := zy.Guard(func() (zygo.Sexp, error) {
+			rd := bufio.NewReader(strings.NewReader(text))
+			for i := 0; i < 400; i++ {
+				_, xs, err := env.VerifReplRead(rd)
+				res.Execs++
+				if err != nil {
+					if err != io.EOF {
+						bad = err.Error()
+					}
+					return nil, nil
+				}
+				s, k := printExprs(env, xs, true)
+				got = append(got, s)
+				n += k
+			}
+			return nil, nil
+		})
+		lines := strings.Count(text, "\n")
+		res.Sig(fmt.Sprintf("R|lines=%d|forms=%d", min(lines, 6), min(n, 6)))
+		if o.Panicked {
+			res.Probe("R-panicked") // C01's business
+			return res
+		}
+		if bad != "" {
+			fail("C13.R-repl", "reader-error", "the REPL reader fails on a text that parses cleanly as a whole: %s. text=%q", zy.NormErr(bad), text)
+			return res
+		}
+		if strings.Join(got, "") != whole.Exprs {
+			fail("C13.R-repl", "line-by-line", "text %q read line by line through the REPL reader gives %s; parsed whole: %s", text, strings.Join(got, ""), whole.Exprs)
+		}
 	case "M":
 		// more-input exactly when the text so far is an unfinished prefix (generated texts only)
 		whole := parseWhole(sc.Text, false)
@@ -604,6 +652,9 @@ func genStreamScenario(mode string) func(*kernel.RNG, string, int) interface{} {
 		if mode == "M" {
 			fromCorpus = false
 		}
+		if mode == "R" {
+			fromCorpus = r.Chance(0.6)
+		}
 		if fromCorpus {
 			sc.Text = corpusChunk(r, 12)
 			sc.Src = "corpus"
@@ -694,7 +745,7 @@ func shrinkStream(body json.RawMessage) []json.RawMessage {
 		s.AllCuts = 1
 		emit(s)
 	}
-	if sc.AllCuts > 0 || sc.Mode == "H" || sc.Mode == "L" || sc.Mode == "M" {
+	if sc.AllCuts > 0 || sc.Mode == "H" || sc.Mode == "L" || sc.Mode == "M" || sc.Mode == "R" {
 		for _, t := range shrinkText(sc.Text, 40) {
 			s := sc
 			s.Text = t
@@ -732,7 +783,7 @@ func init() {
 		Level:    "exploration",
 		Rule: "texts = chunks of the script corpus and generated texts over the lexer's token alphabet; deliveries = the text cut at rune positions and fed to the real pausable parser " +
 			"(A: all pieces queued then one parse; B: interactive continuation after each more-input pause; every single cut and every pair of cuts for short texts, seeded biased cuts for long ones; four stream implementations), " +
-			"H: a seeded history of earlier parses/evals/reads/REPL reads/abandons/stops on the same interpreter and then the text; M: every prefix of a generated text against an independent reference scanner; " +
+			"R: the text delivered line by line through the REPL reader; H: a seeded history of earlier parses/evals/reads/REPL reads/abandons/stops on the same interpreter and then the text; M: every prefix of a generated text against an independent reference scanner; " +
 			"L: text vs text+newline vs text+space. Oracle: equality with the whole text parsed in a fresh interpreter. " +
 			"distinct_nontrivial counts distinct (mode, lexer state and parser depth at each cut / history op sequence / scanner class) signatures.",
 		Components: map[string][]string{
@@ -750,6 +801,7 @@ func init() {
 			mk("H-history", "H", 3000, 60000),
 			mk("L-last-token", "L", 1500, 20000),
 			mk("M-more-input", "M", 600, 8000),
+			mk("R-repl", "R", 1500, 20000),
 		},
 	})
 }
